@@ -1,2 +1,623 @@
+"""pep2coq — Python-ast -> Gallina translator, run on every check from /repo's working tree.
+
+Fail-closed: a construct outside the grammar (DESIGN.md appendix A) makes the item it belongs to
+untranslatable; nothing is emitted for it (so every proof that mentions it stops compiling) and the
+error, with source location, is returned to the driver.
+
+Generated files (coq/Gen/, never committed):
+  Classes.v   every class formula (cterm / xterm) and every add_class_constraints plan
+  Steps.v     the 8 primitive steps as straight-line programs
+  SolvePlan.v order of wrapper.send_* / set_class_constraints / ... in PEP._solve_with_wrapper
+  Globals.v   class-level mutable attributes, and what _reset_classes resets
+  Handlers.v  try/except shapes of eval / eval_dual
+"""
+import ast
+import glob
+import os
+import sys
+from fractions import Fraction
+
+REPO = os.environ.get("PEPIT_REPO", "/repo")
+VERIF = os.path.dirname(os.path.dirname(os.path.abspath(__file__)))
+GEN = os.path.join(VERIF, "coq", "Gen")
+
+PARAMS = {"L": 0, "mu": 1, "M": 2, "D": 3, "beta": 4, "rho": 5}
+PAR_LK = 6
+# point variables / expression variables (Model/ClassGen.v)
+V_XI, V_GI, V_XJ, V_GJ, V_XS, V_V, V_GIK, V_GJK = range(8)
+X_FI, X_FJ, X_FS = range(3)
+
+
+class Untranslatable(Exception):
+    def __init__(self, node, why, path=None):
+        self.node, self.why, self.path = node, why, path
+        loc = "%s:%s" % (path or "?", getattr(node, "lineno", "?"))
+        super().__init__("%s: %s" % (loc, why))
+
+
+def q_lit(v):
+    f = Fraction(v)
+    n, d = f.numerator, f.denominator
+    return "(%s # %d)%%Q" % (("(%d)" % n) if n < 0 else str(n), d)
+
+
+# --------------------------------------------------------------------------------- expressions
+class Tr(object):
+    """translate a Python expression over the variable table `env` (name -> (sort, coq term))"""
+
+    def __init__(self, env, path, scalar_names=None):
+        self.env = dict(env)
+        self.path = path
+
+    def fail(self, node, why):
+        raise Untranslatable(node, why, self.path)
+
+    def tr(self, n):
+        if isinstance(n, ast.Constant):
+            if isinstance(n.value, bool) or not isinstance(n.value, (int, float)):
+                self.fail(n, "non-numeric constant")
+            return "S", "(SNum %s)" % q_lit(n.value)
+        if isinstance(n, ast.Name):
+            if n.id not in self.env:
+                self.fail(n, "unknown name %s" % n.id)
+            return self.env[n.id]
+        if isinstance(n, ast.Attribute):
+            if isinstance(n.value, ast.Name) and n.value.id == "self":
+                if n.attr == "v":
+                    return "P", "(PVar %d)" % V_V
+                if n.attr in PARAMS:
+                    return "S", "(SPar %d)" % PARAMS[n.attr]
+            self.fail(n, "unsupported attribute")
+        if isinstance(n, ast.Subscript):
+            # self.L[k]
+            if (isinstance(n.value, ast.Attribute) and isinstance(n.value.value, ast.Name)
+                    and n.value.value.id == "self" and n.value.attr == "L" and isinstance(n.slice, ast.Name)
+                    and n.slice.id == "k"):
+                return "S", "(SPar %d)" % PAR_LK
+            self.fail(n, "unsupported subscript")
+        if isinstance(n, ast.UnaryOp):
+            if not isinstance(n.op, ast.USub):
+                self.fail(n, "unsupported unary operator")
+            s, t = self.tr(n.operand)
+            return s, "(%s %s)" % ({"S": "SNeg", "P": "PNeg", "X": "XNeg"}[s], t)
+        if isinstance(n, ast.BinOp):
+            return self.binop(n)
+        if isinstance(n, ast.Compare):
+            return self.compare(n)
+        self.fail(n, "unsupported expression node %s" % type(n).__name__)
+
+    def binop(self, n):
+        op = type(n.op).__name__
+        if op == "Pow":
+            ls, lt = self.tr(n.left)
+            if not (isinstance(n.right, ast.Constant) and isinstance(n.right.value, int)
+                    and not isinstance(n.right.value, bool) and n.right.value >= 0):
+                self.fail(n, "exponent must be a literal natural number")
+            k = n.right.value
+            if ls == "P":
+                if k != 2:
+                    self.fail(n, "Point ** k only for k = 2")
+                return "X", "(XSq %s)" % lt
+            if ls == "S":
+                return "S", "(SPow %s %d)" % (lt, k)
+            self.fail(n, "** on an Expression")
+        ls, lt = self.tr(n.left)
+        rs, rt = self.tr(n.right)
+        key = (ls, op, rs)
+        table = {
+            ("S", "Add", "S"): ("S", "(SAdd %s %s)"), ("S", "Sub", "S"): ("S", "(SSub %s %s)"),
+            ("S", "Mult", "S"): ("S", "(SMul %s %s)"), ("S", "Div", "S"): ("S", "(SDiv %s %s)"),
+            ("P", "Add", "P"): ("P", "(PAdd %s %s)"), ("P", "Sub", "P"): ("P", "(PSub %s %s)"),
+            ("P", "Mult", "P"): ("X", "(XInner %s %s)"),
+            ("P", "Div", "S"): ("P", "(PDiv %s %s)"),
+            ("X", "Add", "X"): ("X", "(XAdd %s %s)"), ("X", "Sub", "X"): ("X", "(XSub %s %s)"),
+            ("X", "Add", "S"): ("X", "(XAddS %s %s)"), ("X", "Sub", "S"): ("X", "(XSubS %s %s)"),
+            ("S", "Sub", "X"): ("X", "(XSSub %s %s)"),
+            ("X", "Div", "S"): ("X", "(XDiv %s %s)"),
+        }
+        if key in table:
+            s, fmt = table[key]
+            return s, fmt % (lt, rt)
+        if key == ("S", "Mult", "P"):
+            return "P", "(PScal %s %s)" % (lt, rt)
+        if key == ("P", "Mult", "S"):
+            return "P", "(PScal %s %s)" % (rt, lt)
+        if key == ("S", "Mult", "X"):
+            return "X", "(XScal %s %s)" % (lt, rt)
+        if key == ("X", "Mult", "S"):
+            return "X", "(XScal %s %s)" % (rt, lt)
+        if key == ("S", "Add", "X"):
+            return "X", "(XAddS %s %s)" % (rt, lt)
+        self.fail(n, "operator %s on sorts %s,%s" % (op, ls, rs))
+
+    def compare(self, n):
+        if len(n.ops) != 1:
+            self.fail(n, "chained comparison")
+        op = type(n.ops[0]).__name__
+        ls, lt = self.tr(n.left)
+        rs, rt = self.tr(n.comparators[0])
+        rel = {"LtE": "Le", "Lt": "Le", "GtE": "Ge", "Gt": "Ge", "Eq": "Eq"}.get(op)
+        if rel is None:
+            self.fail(n, "comparison %s" % op)
+        if (ls, rs) == ("X", "X"):
+            return "C", "(C%s %s %s)" % (rel, lt, rt)
+        if (ls, rs) == ("X", "S"):
+            return "C", "(C%sS %s %s)" % (rel, lt, rt)
+        if (ls, rs) == ("S", "X"):
+            return "C", "(CS%s %s %s)" % (rel, lt, rt)
+        self.fail(n, "comparison between sorts %s,%s" % (ls, rs))
+
+
+def strip_doc(body):
+    if body and isinstance(body[0], ast.Expr) and isinstance(body[0].value, ast.Constant) \
+            and isinstance(body[0].value.value, str):
+        return body[1:]
+    return body
+
+
+def is_self_attr(n, attr=None):
+    return isinstance(n, ast.Attribute) and isinstance(n.value, ast.Name) and n.value.id == "self" \
+        and (attr is None or n.attr == attr)
+
+
+def list_ref(n, path):
+    if is_self_attr(n, "list_of_points"):
+        return "LPoints"
+    if is_self_attr(n, "list_of_stationary_points"):
+        return "LStationary"
+    if isinstance(n, ast.Attribute) and n.attr == "list_of_points" and is_self_attr(n.value, "T"):
+        return "LTPoints"
+    raise Untranslatable(n, "unknown list of points", path)
+
+
+def stationary_local(stmt, env, path):
+    """xs, _, fs = self.list_of_stationary_points[0]   |   xs = self.list_of_stationary_points[0][0]"""
+    if not isinstance(stmt, ast.Assign) or len(stmt.targets) != 1:
+        return False
+    tgt, val = stmt.targets[0], stmt.value
+
+    def first_stat(v):
+        return isinstance(v, ast.Subscript) and is_self_attr(v.value, "list_of_stationary_points") \
+            and isinstance(v.slice, ast.Constant) and v.slice.value == 0
+    if isinstance(tgt, ast.Tuple) and len(tgt.elts) == 3 and first_stat(val):
+        names = [e.id if isinstance(e, ast.Name) else None for e in tgt.elts]
+        if None in names:
+            raise Untranslatable(stmt, "bad unpacking target", path)
+        if names[0] != "_":
+            env[names[0]] = ("P", "(PVar %d)" % V_XS)
+        if names[1] != "_":
+            raise Untranslatable(stmt, "gradient of the stationary sample is not a formula variable", path)
+        if names[2] != "_":
+            env[names[2]] = ("X", "(XVar %d)" % X_FS)
+        return True
+    if isinstance(tgt, ast.Name) and isinstance(val, ast.Subscript) and first_stat(val.value) \
+            and isinstance(val.slice, ast.Constant) and val.slice.value == 0:
+        env[tgt.id] = ("P", "(PVar %d)" % V_XS)
+        return True
+    return False
+
+
+def positional_env(names, first=True):
+    """(x, g, f) names of sample i (first) or j"""
+    x, g, f = names
+    if first:
+        return {x: ("P", "(PVar %d)" % V_XI), g: ("P", "(PVar %d)" % V_GI), f: ("X", "(XVar %d)" % X_FI)}
+    return {x: ("P", "(PVar %d)" % V_XJ), g: ("P", "(PVar %d)" % V_GJ), f: ("X", "(XVar %d)" % X_FJ)}
+
+
+def translate_formula_method(fn, path):
+    args = [a.arg for a in fn.args.args]
+    if args and args[0] == "self":
+        args = args[1:]
+    if len(args) not in (3, 6) or fn.args.vararg or fn.args.kwarg or fn.args.kwonlyargs:
+        raise Untranslatable(fn, "formula method must take 3 or 6 sample arguments", path)
+    env = positional_env(args[:3], True)
+    if len(args) == 6:
+        env.update(positional_env(args[3:], False))
+    body = strip_doc(fn.body)
+    result = None
+    for k, stmt in enumerate(body):
+        if stationary_local(stmt, env, path):
+            continue
+        if isinstance(stmt, ast.Assign) and len(stmt.targets) == 1 and isinstance(stmt.targets[0], ast.Name) \
+                and stmt.targets[0].id == "constraint":
+            s, t = Tr(env, path).tr(stmt.value)
+            if s != "C":
+                raise Untranslatable(stmt, "constraint is not a comparison", path)
+            result = t
+            continue
+        if isinstance(stmt, ast.Return) and isinstance(stmt.value, ast.Name) and stmt.value.id == "constraint" \
+                and k == len(body) - 1 and result is not None:
+            continue
+        raise Untranslatable(stmt, "statement outside the formula grammar", path)
+    if result is None:
+        raise Untranslatable(fn, "no constraint built", path)
+    return len(args), result
+
+
+# --------------------------------------------------------------------------------- plans
+def kw(call, name, path):
+    for k in call.keywords:
+        if k.arg == name:
+            return k.value
+    raise Untranslatable(call, "missing keyword %s" % name, path)
+
+
+def unpack3(stmt, src_name, path):
+    if isinstance(stmt, ast.Assign) and len(stmt.targets) == 1 and isinstance(stmt.targets[0], ast.Tuple) \
+            and len(stmt.targets[0].elts) == 3 and isinstance(stmt.value, ast.Name) and stmt.value.id == src_name \
+            and all(isinstance(e, ast.Name) for e in stmt.targets[0].elts):
+        return [e.id for e in stmt.targets[0].elts]
+    raise Untranslatable(stmt, "expected  a, b, c = %s" % src_name, path)
+
+
+def translate_plan(cls, formulas, path):
+    """formulas: method name -> (arity, coq name)"""
+    fn = next((b for b in cls.body if isinstance(b, ast.FunctionDef) and b.name == "add_class_constraints"), None)
+    if fn is None:
+        raise Untranslatable(cls, "no add_class_constraints", path)
+    body = strip_doc(fn.body)
+    items = []
+    extra_defs = []   # (coq name, sort, term) for inline LMI entries / cross equalities
+    env_locals = {}
+    cname = cls.name
+
+    def gen_call(stmt):
+        if not (isinstance(stmt, ast.Expr) and isinstance(stmt.value, ast.Call) and is_self_attr(stmt.value.func)):
+            return None
+        call = stmt.value
+        if call.args:
+            raise Untranslatable(call, "positional arguments in generator call", path)
+        m = call.func.attr
+        if m == "add_constraints_from_two_lists_of_points":
+            allowed = {"list_of_points_1", "list_of_points_2", "constraint_name", "set_class_constraint_i_j", "symmetry"}
+            if {k.arg for k in call.keywords} - allowed:
+                raise Untranslatable(call, "unknown keyword", path)
+            l1 = list_ref(kw(call, "list_of_points_1", path), path)
+            l2 = list_ref(kw(call, "list_of_points_2", path), path)
+            nm = kw(call, "constraint_name", path)
+            f = kw(call, "set_class_constraint_i_j", path)
+            sym = "false"
+            for k in call.keywords:
+                if k.arg == "symmetry":
+                    if not (isinstance(k.value, ast.Constant) and isinstance(k.value.value, bool)):
+                        raise Untranslatable(call, "symmetry must be a literal", path)
+                    sym = "true" if k.value.value else "false"
+            if not (isinstance(nm, ast.Constant) and isinstance(nm.value, str)):
+                raise Untranslatable(call, "constraint_name must be a literal", path)
+            if not (is_self_attr(f) and f.attr in formulas and formulas[f.attr][0] == 6):
+                raise Untranslatable(call, "unknown pair formula", path)
+            return 'Pairs %s %s "%s" %s %s' % (l1, l2, nm.value, formulas[f.attr][1], sym)
+        if m == "add_constraints_from_one_list_of_points":
+            allowed = {"list_of_points", "constraint_name", "set_class_constraint_i"}
+            if {k.arg for k in call.keywords} - allowed:
+                raise Untranslatable(call, "unknown keyword", path)
+            l = list_ref(kw(call, "list_of_points", path), path)
+            nm = kw(call, "constraint_name", path)
+            f = kw(call, "set_class_constraint_i", path)
+            if not (isinstance(nm, ast.Constant) and isinstance(nm.value, str)):
+                raise Untranslatable(call, "constraint_name must be a literal", path)
+            if not (is_self_attr(f) and f.attr in formulas and formulas[f.attr][0] == 3):
+                raise Untranslatable(call, "unknown single-point formula", path)
+            return 'Singles %s "%s" %s' % (l, nm.value, formulas[f.attr][1])
+        return None
+
+    i = 0
+    n_lmi = 0
+    while i < len(body):
+        stmt = body[i]
+        g = gen_call(stmt)
+        if g is not None:
+            items.append(g)
+            i += 1
+            continue
+        if isinstance(stmt, ast.If) and not stmt.orelse:
+            t = stmt.test
+            # if self.<p> != np.inf:
+            if isinstance(t, ast.Compare) and len(t.ops) == 1 and isinstance(t.ops[0], ast.NotEq) \
+                    and is_self_attr(t.left) and t.left.attr in PARAMS \
+                    and isinstance(t.comparators[0], ast.Attribute) and t.comparators[0].attr == "inf":
+                for s2 in stmt.body:
+                    g2 = gen_call(s2)
+                    if g2 is None:
+                        raise Untranslatable(s2, "only generator calls inside a guard", path)
+                    items.append("Guarded (GParFinite %d) (%s)" % (PARAMS[t.left.attr], g2))
+                i += 1
+                continue
+            # if self.v is not None:
+            if isinstance(t, ast.Compare) and len(t.ops) == 1 and isinstance(t.ops[0], ast.IsNot) \
+                    and is_self_attr(t.left, "v") and isinstance(t.comparators[0], ast.Constant) \
+                    and t.comparators[0].value is None:
+                for s2 in stmt.body:
+                    g2 = gen_call(s2)
+                    if g2 is None:
+                        raise Untranslatable(s2, "only generator calls inside a guard", path)
+                    items.append("Guarded GHasV (%s)" % g2)
+                i += 1
+                continue
+            # if self.list_of_stationary_points == list(): self.stationary_point()
+            if isinstance(t, ast.Compare) and len(t.ops) == 1 and isinstance(t.ops[0], ast.Eq) \
+                    and is_self_attr(t.left, "list_of_stationary_points") \
+                    and isinstance(t.comparators[0], ast.Call) and isinstance(t.comparators[0].func, ast.Name) \
+                    and t.comparators[0].func.id == "list" and not t.comparators[0].args \
+                    and len(stmt.body) == 1 and isinstance(stmt.body[0], ast.Expr) \
+                    and isinstance(stmt.body[0].value, ast.Call) and is_self_attr(stmt.body[0].value.func, "stationary_point") \
+                    and not stmt.body[0].value.args and not stmt.body[0].value.keywords:
+                items.append("AutoStationary")
+                i += 1
+                continue
+            raise Untranslatable(stmt, "unsupported guard", path)
+        if stationary_local(stmt, env_locals, path):
+            i += 1
+            continue
+        # LMI block:  N = len(L); T = np.empty(...); for i, point_i in enumerate(L): ...; psd = PSDMatrix(matrix_of_expressions=T); self.list_of_class_psd.append(psd)
+        if isinstance(stmt, ast.Assign) and isinstance(stmt.value, ast.Call) and isinstance(stmt.value.func, ast.Name) \
+                and stmt.value.func.id == "len" and i + 4 < len(body):
+            lname = list_ref(stmt.value.args[0], path)
+            nvar = stmt.targets[0].id
+            s_empty, s_for, s_psd, s_app = body[i + 1:i + 5]
+            if not (isinstance(s_empty, ast.Assign) and isinstance(s_empty.value, ast.Call)
+                    and isinstance(s_empty.value.func, ast.Attribute) and s_empty.value.func.attr == "empty"):
+                raise Untranslatable(s_empty, "expected T = np.empty(...)", path)
+            tname = s_empty.targets[0].id
+            shp = s_empty.value.args[0]
+            if not (isinstance(shp, (ast.Tuple, ast.List)) and len(shp.elts) == 2
+                    and all(isinstance(e, ast.Name) and e.id == nvar for e in shp.elts)):
+                raise Untranslatable(s_empty, "LMI must be N x N", path)
+            entry = lmi_loop(s_for, lname, tname, dict(env_locals), path)
+            if not (isinstance(s_psd, ast.Assign) and isinstance(s_psd.value, ast.Call)
+                    and isinstance(s_psd.value.func, ast.Name) and s_psd.value.func.id == "PSDMatrix"
+                    and len(s_psd.value.keywords) == 1 and s_psd.value.keywords[0].arg == "matrix_of_expressions"
+                    and isinstance(s_psd.value.keywords[0].value, ast.Name)
+                    and s_psd.value.keywords[0].value.id == tname and not s_psd.value.args):
+                raise Untranslatable(s_psd, "expected PSDMatrix(matrix_of_expressions=T)", path)
+            pname = s_psd.targets[0].id
+            if not (isinstance(s_app, ast.Expr) and isinstance(s_app.value, ast.Call)
+                    and isinstance(s_app.value.func, ast.Attribute) and s_app.value.func.attr == "append"
+                    and is_self_attr(s_app.value.func.value, "list_of_class_psd")
+                    and len(s_app.value.args) == 1 and isinstance(s_app.value.args[0], ast.Name)
+                    and s_app.value.args[0].id == pname):
+                raise Untranslatable(s_app, "expected self.list_of_class_psd.append(psd)", path)
+            n_lmi += 1
+            dn = "lmi_%s_%d" % (cname, n_lmi)
+            extra_defs.append((dn, "xterm", entry))
+            items.append("LMI %s %s" % (lname, dn))
+            i += 5
+            continue
+        # LinearOperator cross loop
+        if isinstance(stmt, ast.For) and isinstance(stmt.target, ast.Name) and not stmt.orelse:
+            l1 = list_ref(stmt.iter, path)
+            if l1 != "LPoints" or len(stmt.body) != 2:
+                raise Untranslatable(stmt, "unsupported loop", path)
+            n1 = unpack3(stmt.body[0], stmt.target.id, path)
+            inner = stmt.body[1]
+            if not (isinstance(inner, ast.For) and isinstance(inner.target, ast.Name) and not inner.orelse
+                    and list_ref(inner.iter, path) == "LTPoints" and len(inner.body) == 2):
+                raise Untranslatable(inner, "unsupported inner loop", path)
+            n2 = unpack3(inner.body[0], inner.target.id, path)
+            app = inner.body[1]
+            if not (isinstance(app, ast.Expr) and isinstance(app.value, ast.Call)
+                    and isinstance(app.value.func, ast.Attribute) and app.value.func.attr == "append"
+                    and is_self_attr(app.value.func.value, "list_of_class_constraints") and len(app.value.args) == 1):
+                raise Untranslatable(app, "expected self.list_of_class_constraints.append(<comparison>)", path)
+            env = positional_env(n1, True)
+            env.update(positional_env(n2, False))
+            s, t = Tr(env, path).tr(app.value.args[0])
+            if s != "C":
+                raise Untranslatable(app, "appended object is not a comparison", path)
+            dn = "cross_%s" % cname
+            extra_defs.append((dn, "cterm", t))
+            items.append("CrossEq %s" % dn)
+            i += 1
+            continue
+        raise Untranslatable(stmt, "statement outside the plan grammar", path)
+    return items, extra_defs
+
+
+def lmi_loop(s_for, lname, tname, env, path):
+    """for i, point_i in enumerate(L): xi, gi, fi = point_i; for j, point_j in enumerate(L): xj, gj, fj = point_j; T[i, j] = e"""
+    def enum_over(f):
+        return (isinstance(f, ast.For) and not f.orelse and isinstance(f.target, ast.Tuple) and len(f.target.elts) == 2
+                and all(isinstance(e, ast.Name) for e in f.target.elts)
+                and isinstance(f.iter, ast.Call) and isinstance(f.iter.func, ast.Name) and f.iter.func.id == "enumerate"
+                and len(f.iter.args) == 1 and list_ref(f.iter.args[0], path) == lname)
+    if not enum_over(s_for) or len(s_for.body) != 2:
+        raise Untranslatable(s_for, "unsupported LMI loop", path)
+    iv, pv = [e.id for e in s_for.target.elts]
+    n1 = unpack3(s_for.body[0], pv, path)
+    inner = s_for.body[1]
+    if not enum_over(inner) or len(inner.body) != 2:
+        raise Untranslatable(inner, "unsupported inner LMI loop", path)
+    jv, qv = [e.id for e in inner.target.elts]
+    n2 = unpack3(inner.body[0], qv, path)
+    asg = inner.body[1]
+    if not (isinstance(asg, ast.Assign) and len(asg.targets) == 1 and isinstance(asg.targets[0], ast.Subscript)
+            and isinstance(asg.targets[0].value, ast.Name) and asg.targets[0].value.id == tname
+            and isinstance(asg.targets[0].slice, ast.Tuple) and len(asg.targets[0].slice.elts) == 2
+            and [getattr(e, "id", None) for e in asg.targets[0].slice.elts] == [iv, jv]):
+        raise Untranslatable(asg, "expected T[i, j] = <expression>", path)
+    env.update(positional_env(n1, True))
+    env.update(positional_env(n2, False))
+    s, t = Tr(env, path).tr(asg.value)
+    if s != "X":
+        raise Untranslatable(asg, "LMI entry is not an Expression", path)
+    return t
+
+
+def ctor_info(cls, path):
+    """forced reuse_gradient, parameters stored, constructor side effects"""
+    init = next((b for b in cls.body if isinstance(b, ast.FunctionDef) and b.name == "__init__"), None)
+    info = dict(force_reuse=False, params=[], ctor_stationary=False, has_T=False, has_v=False)
+    if init is None:
+        raise Untranslatable(cls, "no __init__", path)
+    for n in ast.walk(init):
+        if isinstance(n, ast.Call) and isinstance(n.func, ast.Attribute) and n.func.attr == "__init__":
+            for k in n.keywords:
+                if k.arg == "reuse_gradient":
+                    if isinstance(k.value, ast.Constant) and k.value.value is True:
+                        info["force_reuse"] = True
+                    elif isinstance(k.value, ast.Name) and k.value.id == "reuse_gradient":
+                        info["force_reuse"] = False
+                    else:
+                        raise Untranslatable(n, "unsupported reuse_gradient argument", path)
+        if isinstance(n, ast.Assign) and len(n.targets) == 1 and is_self_attr(n.targets[0]):
+            a = n.targets[0].attr
+            if a in PARAMS:
+                info["params"].append(PARAMS[a])
+            elif a == "T":
+                info["has_T"] = True
+            elif a == "v":
+                info["has_v"] = True
+        if isinstance(n, ast.Call) and isinstance(n.func, ast.Attribute) and n.func.attr == "stationary_point" \
+                and isinstance(n.func.value, ast.Call) and isinstance(n.func.value.func, ast.Name) \
+                and n.func.value.func.id == "super":
+            info["ctor_stationary"] = True
+    return info
+
+
+def translate_classes():
+    """returns (coq text, status dict class -> True | error string, list of class names translated)"""
+    out = ["(* GENERATED by translator/pep2coq.py from /repo — do not edit, never committed *)",
+           "From Coq Require Import List QArith String Bool.",
+           "From PV Require Import Model.Dict Model.Terms Model.ClassGen.",
+           "Import ListNotations.", "Local Open Scope string_scope.", ""]
+    status = {}
+    names = []
+    files = sorted(glob.glob(os.path.join(REPO, "PEPit", "functions", "*.py")) +
+                   glob.glob(os.path.join(REPO, "PEPit", "operators", "*.py")))
+    for path in files:
+        if os.path.basename(path) == "__init__.py":
+            continue
+        try:
+            tree = ast.parse(open(path).read(), path)
+        except SyntaxError as e:
+            status[os.path.basename(path)] = "syntax error: %s" % e
+            continue
+        for cls in tree.body:
+            if not isinstance(cls, ast.ClassDef):
+                continue
+            if cls.name == "BlockSmoothConvexFunction":
+                try:
+                    out += translate_block_smooth(cls, path)
+                    status[cls.name] = True
+                    names.append(cls.name)
+                except Untranslatable as e:
+                    status[cls.name] = str(e)
+                    out.append("(* %s : UNTRANSLATABLE %s *)" % (cls.name, str(e).replace("*)", "* )")))
+                continue
+            chunk = []
+            try:
+                formulas = {}
+                for b in cls.body:
+                    if isinstance(b, ast.FunctionDef) and b.name.startswith("set_"):
+                        ar, t = translate_formula_method(b, path)
+                        cn = "f_%s_%s" % (cls.name, b.name[4:])
+                        formulas[b.name] = (ar, cn)
+                        chunk.append("Definition %s : cterm :=\n  %s." % (cn, t))
+                items, extra = translate_plan(cls, formulas, path)
+                for dn, ty, t in extra:
+                    chunk.append("Definition %s : %s :=\n  %s." % (dn, ty, t))
+                info = ctor_info(cls, path)
+                chunk.append("Definition plan_%s : list plan_item :=\n  [%s]." % (cls.name, ";\n   ".join(items)))
+                chunk.append("Definition force_reuse_%s : bool := %s." % (cls.name, "true" if info["force_reuse"] else "false"))
+                chunk.append("Definition ctor_stationary_%s : bool := %s." % (cls.name, "true" if info["ctor_stationary"] else "false"))
+                chunk.append("Definition params_%s : list nat := [%s]." % (cls.name, "; ".join("%d%%nat" % k for k in sorted(set(info["params"])))))
+                out += chunk + [""]
+                status[cls.name] = True
+                names.append(cls.name)
+            except Untranslatable as e:
+                status[cls.name] = str(e)
+                out.append("(* %s : UNTRANSLATABLE %s *)" % (cls.name, str(e).replace("*)", "* )")))
+    out.append("Definition translated_classes : list string := [%s]." % "; ".join('"%s"' % n for n in names))
+    return "\n".join(out) + "\n", status
+
+
+def translate_block_smooth(cls, path):
+    """BlockSmoothConvexFunction hand-rolls its loops; the formula is extracted, the loop shape checked."""
+    fn = next((b for b in cls.body if isinstance(b, ast.FunctionDef) and b.name == "add_class_constraints"), None)
+    if fn is None:
+        raise Untranslatable(cls, "no add_class_constraints", path)
+    formula = None
+    shape = []
+    for n in ast.walk(fn):
+        if isinstance(n, ast.Assign) and len(n.targets) == 1 and isinstance(n.targets[0], ast.Name) \
+                and n.targets[0].id == "constraint":
+            env = positional_env(["xi", "gi", "fi"], True)
+            env.update(positional_env(["xj", "gj", "fj"], False))
+            env["gik"] = ("P", "(PVar %d)" % V_GIK)
+            env["gjk"] = ("P", "(PVar %d)" % V_GJK)
+            s, t = Tr(env, path).tr(n.value)
+            if s != "C":
+                raise Untranslatable(n, "not a comparison", path)
+            if formula is not None:
+                raise Untranslatable(n, "several constraints built", path)
+            formula = t
+    # loop shape: for i.. for j.. if point_i == point_j: (table only) else: for k in range(nb_blocks): gik, gjk = get_block(gi,k), get_block(gj,k)
+    body = strip_doc(fn.body)
+    fors = [s for s in body if isinstance(s, ast.For)]
+    if len(fors) != 2:
+        raise Untranslatable(fn, "expected the table-initialisation loop and the double loop", path)
+    outer = fors[1]
+    if not (isinstance(outer.iter, ast.Call) and outer.iter.func.id == "enumerate" and list_ref(outer.iter.args[0], path) == "LPoints"):
+        raise Untranslatable(outer, "outer loop must enumerate self.list_of_points", path)
+    inner = [s for s in outer.body if isinstance(s, ast.For)]
+    if len(inner) != 1 or not (isinstance(inner[0].iter, ast.Call) and list_ref(inner[0].iter.args[0], path) == "LPoints"):
+        raise Untranslatable(outer, "inner loop must enumerate self.list_of_points", path)
+    ifs = [s for s in inner[0].body if isinstance(s, ast.If)]
+    cond = [s for s in ifs if isinstance(s.test, ast.Compare) and isinstance(s.test.left, ast.Name)
+            and s.test.left.id == "point_i" and isinstance(s.test.ops[0], ast.Eq)
+            and isinstance(s.test.comparators[0], ast.Name) and s.test.comparators[0].id == "point_j"]
+    if len(cond) != 1 or not cond[0].orelse:
+        raise Untranslatable(inner[0], "expected  if point_i == point_j: ... else: ...", path)
+    kloop = [s for s in cond[0].orelse if isinstance(s, ast.For)]
+    if len(kloop) != 1:
+        raise Untranslatable(cond[0], "expected a loop over blocks in the else branch", path)
+    blocks = {}
+    for s in kloop[0].body:
+        if isinstance(s, ast.Assign) and isinstance(s.value, ast.Call) and isinstance(s.value.func, ast.Attribute) \
+                and s.value.func.attr == "get_block":
+            blocks[s.targets[0].id] = [getattr(a, "id", None) for a in s.value.args]
+    if blocks != {"gik": ["gi", "k"], "gjk": ["gj", "k"]}:
+        raise Untranslatable(kloop[0], "expected gik/gjk = get_block(gi/gj, k)", path)
+    if formula is None:
+        raise Untranslatable(fn, "no constraint", path)
+    return ["Definition f_BlockSmoothConvexFunction_smoothness_convexity_block : cterm :=\n  %s." % formula,
+            "Definition force_reuse_BlockSmoothConvexFunction : bool := true.", ""]
+
+
+def write_if_changed(path, text):
+    os.makedirs(os.path.dirname(path), exist_ok=True)
+    if os.path.exists(path) and open(path).read() == text:
+        return False
+    with open(path, "w") as f:
+        f.write(text)
+    return True
+
+
 def regenerate():
-    return {}
+    """regenerate every Gen/*.v; returns {file or item: True | error string}"""
+    status = {}
+    text, st = translate_classes()
+    write_if_changed(os.path.join(GEN, "Classes.v"), text)
+    for k, v in st.items():
+        status["Classes.v:" + k] = v
+    for name in ("steps", "solveplan", "globals_", "handlers"):
+        fn = globals().get("translate_" + name)
+        if fn is None:
+            continue
+        try:
+            fname, text, st = fn()
+            write_if_changed(os.path.join(GEN, fname), text)
+            for k, v in st.items():
+                status[fname + ":" + k] = v
+        except Exception as e:   # fail closed
+            status[name] = "translator crashed: %r" % (e,)
+    return status
+
+
+if __name__ == "__main__":
+    st = regenerate()
+    bad = {k: v for k, v in st.items() if v is not True}
+    print("%d items translated, %d failed" % (len(st) - len(bad), len(bad)))
+    for k, v in bad.items():
+        print("  ", k, v)
